@@ -535,13 +535,13 @@ func (g *pgen) stmt(c stmtCtx) {
 		g.emit("}")
 	case k < 90: // switch with tag
 		if g.o.Faithful && !g.pct(20, "switchInFaithful") {
-			if g.pct(35, "defaultOnlySwitch") {
+			if g.pct(50, "defaultOnlySwitch") {
 				// a switch with nothing but a default clause compiles to jumps only (no comparison): inside the faithful set
 				g.emit("switch %s {", g.expr(1))
 				rc := g.pushCtx()
 				g.emit("default:")
 				g.ind++
-				g.caseBody(c)
+				g.caseBody(c, 50)
 				g.ind--
 				rc()
 				g.emit("}")
@@ -556,7 +556,7 @@ func (g *pgen) stmt(c stmtCtx) {
 		for i := 0; i < ncase; i++ {
 			g.emit("case %s:", g.lit())
 			g.ind++
-			if g.caseBody(c) {
+			if g.caseBody(c, 8) { // (a case clause is entered through a comparison: the recorded je finding is met first)
 				g.ind--
 				continue
 			}
@@ -568,7 +568,7 @@ func (g *pgen) stmt(c stmtCtx) {
 		if g.pct(60, "default") {
 			g.emit("default:")
 			g.ind++
-			g.caseBody(c)
+			g.caseBody(c, 50)
 			g.ind--
 		}
 		rc()
@@ -620,11 +620,11 @@ func (g *pgen) stmt(c stmtCtx) {
 
 // case bodies have no scope of their own in the compiler: only plain statements, no declarations
 // It reports whether the body ends in a break.
-func (g *pgen) caseBody(c stmtCtx) (endsInBreak bool) {
+func (g *pgen) caseBody(c stmtCtx, breakPct int) (endsInBreak bool) {
 	defer func() {
 		// an unlabelled break inside a clause ends the switch (Go). Inside a loop the compiler makes it leave
 		// the loop (recorded finding); outside any loop it refuses it
-		if !(g.inLoop > 0 && g.pct(20, "switchbreak")) && !(g.inLoop == 0 && g.pct(3, "switchbreakNoLoop")) {
+		if !(g.inLoop > 0 && g.pct(breakPct, "switchbreak")) && !(g.inLoop == 0 && g.pct(3, "switchbreakNoLoop")) {
 			return
 		}
 		if g.pct(50, "switchbreakGuarded") {
